@@ -39,6 +39,8 @@ func allScenarios() []Scenario {
 	for _, f := range layerScens {
 		sc = append(sc, f()...)
 	}
+	sc = append(sc, c01SchedScenarios()...)
+	sc = append(sc, c02SchedScenarios()...)
 	return sc
 }
 
@@ -97,6 +99,19 @@ func main() {
 			t0 := time.Now()
 			ex.Subtree(nil)
 			fmt.Fprintf(engine.ProtoOut(), "%-32s mode=%s execs=%d states=%d trans=%d hits=%d maxpoints=%d outcomes=%d capped=%v %.1fs\n", sc.Name, os.Args[3], ex.St.Execs, ex.St.States, ex.St.Transitions, ex.St.CacheHits, ex.St.MaxPoints, len(ex.St.Outcomes), ex.St.Capped, time.Since(t0).Seconds())
+			if os.Getenv("VERIF_EXPLORE_FAMILIES") != "" {
+				r0, _ := sc.execFn()(nil)
+				fmt.Fprintf(engine.ProtoOut(), "    continuations: %v\n    goroutines: %v\n", r0.Continuations, r0.Goroutines)
+				for _, cc := range r0.Continuations {
+					rr, oo := sc.execPolicy("", cc)
+					fmt.Fprintf(engine.ProtoOut(), "    suspend %s -> leftover %v conts %d out %.60s\n", cc, rr.Leftover, len(rr.Continuations), oo)
+				}
+				c2, _, who, n := sc.suspendFamily()
+				fmt.Fprintf(engine.ProtoOut(), "    suspension family: %d runs, %d outcomes\n", n, len(c2))
+				for o, k := range c2 {
+					fmt.Fprintf(engine.ProtoOut(), "    %6d  %.200s   suspended=%s\n", k, o, who[o])
+				}
+			}
 			if len(ex.St.Outcomes) > 1 {
 				for o, n := range ex.St.Outcomes {
 					fmt.Fprintf(engine.ProtoOut(), "    %6d  %.300s   first=%v\n", n, o, ex.St.FirstTrace[o])
